@@ -424,7 +424,9 @@ var msgNames = []string{"", "AreYouThere", "OnLineData", "ERN", "名前", "a.b",
 	"Are\x00You", "esc\x1bname", "del\x7f", "c1\u009f", "\x01", "zw\u200bsp", "bom\ufeff",
 	"Yield%", "100%Done", "50%%", "%d", "%s%v", "%!v(MISSING)", "a%[1]d", "\\n", "{0}",
 	// letters whose UTF-8 encoding contains the bytes 0x85 or 0xA0 (white space as Latin-1 runes)
-	"Voilà", "Ångström", "状態", "выход"}
+	"Voilà", "Ångström", "状態", "выход",
+	// names that end in the character that ends a message
+	"Rev1.", "etc.", "x.", "Abort.."}
 
 func genMsgDesc(r *rand.Rand, item *Node, pbad float64) *MsgDesc {
 	m := &MsgDesc{Item: item}
